@@ -213,6 +213,13 @@ evaluating context). The model is a model of the repaired tree.
 * C17 (session 4, first run of the new host-resources family): a history step that re-used a Compiler object was compared with a fresh
   compile under the options written on the STEP, while a re-used Compiler keeps the options it was BUILT with (stack limit 100 vs 63:
   traces of different length). Generator error; steps that share a Compiler now share its options, as the older families did.
+* C19 (session 4, first run of the CLI-model correspondence; the 17 disagreements made the check widen its search to other seeds): one
+  widened case expected the program's own InvalidArgumentsError where the project file's `stack_limit: 4` — which replaces a limit given
+  on the command line too — produced StackOverflowError first. Generator error (the "limits in force" list left the project file out when
+  a command-line limit was given); corrected. The 17 disagreements themselves were the model's error about `stack_limit: 0` (§10.3).
+* C20 (session 4, round 12): a new family expected `FUNC g a,f<LF>` (list input, a line break after the LAST parameter) to be rejected;
+  parameters are stripped after the split at the commas, so the name is `f` and is valid. Generator error; the family is kept for function
+  names and loop counters, where nothing is stripped.
 
 ### 10.5 Seeded changes (`seeded/<id>/`: patch.diff, demo.py, meta.json) and the checks that catch them
 
